@@ -115,7 +115,7 @@ def step (s : St) (line : String) : St × String :=
     | none => (s, "err parse")
   | ["compact"] =>
     match s.db with
-    | some db => ({ s with db := some (compact db s.stable) }, "ok " ++ showTable (compact db s.stable))
+    | some db => ({ s with db := some (compact db) }, "ok " ++ showTable (compact db))
     | none => (s, "err no_table")
   | [h, kind, fl, arg] =>
     match parseHandle h with
